@@ -4,16 +4,22 @@ import asmk
 
 PROP = "C16"
 
-def gen_struct(rng, sname):
-    """returns (lines, fields [(name, offset, size)], total) by an independent layout computation"""
+def gen_struct(rng, sname, gnames=None):
+    """returns (lines, fields [(name, offset, size)], total) by an independent layout computation.
+    gnames: global constants {name: value} that are named like fields of this struct (a bare name in a size expression
+    is the global one: only `.name` / `Struct.name` mean the field)"""
     lines, fields = [], []
     size = 0
+    gnames = gnames or {}
     for i in range(rng.randrange(0, 13)):
         r = rng.random()
         if r < 0.45:
             name = "fld%d" % i
             k = rng.random()
-            if k < 0.5 or not fields:
+            if gnames and rng.random() < 0.3:
+                g = rng.choice(sorted(gnames))
+                sz, etxt = rng.choice([(gnames[g], g), (gnames[g] * 2, "%s * 2" % g), (gnames[g] + 1, "1 + %s" % g)])
+            elif k < 0.5 or not fields:
                 sz = rng.choice([0, 1, 2, 3, 4, 8, 16, 100, 255, 256, 1000])
                 etxt = str(sz)
             elif k < 0.75:
@@ -38,7 +44,11 @@ def gen_struct(rng, sname):
             fields.append((name, size, 2)); size += 2
         elif r < 0.87:
             n = rng.choice([0, 1, 3, 7, 32])
-            lines.append("  @ds %d" % n); size += n
+            if gnames and rng.random() < 0.3:
+                g = rng.choice(sorted(gnames)); n = gnames[g]
+                lines.append("  @ds %s" % g); size += n
+            else:
+                lines.append("  @ds %d" % n); size += n
         else:
             a = rng.choice([2, 3, 4, 8, 16, 100, 256, 1024, 4096])
             lines.append("  @align %d" % a); size += (a - size % a) % a
@@ -63,10 +73,11 @@ def run(ck):
     for _ in range(8000 if thorough else 1200):
         arch = rng.choice(asmk.ARCHES)
         sname = rng.choice(["Spr", "Pnt", "Obj9"])
-        lines, fields, total = gen_struct(rng, sname)
+        gnames = {"fld%d" % k: rng.choice([3, 6, 9, 20]) for k in rng.sample(range(12), rng.choice([0, 0, 2, 4]))}
+        lines, fields, total = gen_struct(rng, sname, gnames)
         probes = ["@dw %s" % sname] + ["@dw %s.%s" % (sname, f[0]) for f in fields] + ["@dw @sizeof %s.%s" % (sname, f[0]) for f in fields]
         vals = [total] + [f[1] for f in fields] + [f[2] for f in fields]
-        text = ["@org $200", "glob1:"] + probes + ["@struct " + sname] + lines + ["@endstruct", ".after1:"] + probes + ["@dw glob1.after1"]
+        text = ["@org $200"] + ["@defn %s, %d" % kv for kv in sorted(gnames.items())] + ["glob1:"] + probes + ["@struct " + sname] + lines + ["@endstruct", ".after1:"] + probes + ["@dw glob1.after1"]
         after_addr = 0x200 + 2 * len(probes)
         if any(v > 0xFFFF or v < 0 for v in vals):
             e = "DIAG"
